@@ -68,6 +68,17 @@ Definition inj_stage (op_provided depth_provided infl_provided : bool) (life k :
   then if depth_provided || infl_provided then inj_pressure life k p_inj infl else Err E_UNBOUND
   else prod.
 
+(* TypeError ('<' between list and int) *)
+Definition E_TYPE : Z := 6.
+
+(* A SECOND call of WellBores.Calculate on the same model (district heating: Model.Calculate runs the wellbores again
+   after the surface plant).  The first call has stored the series in injection_reservoir_pressure.value, and the
+   split-reservoir branch starts with `if self.injection_reservoir_pressure.value < 0`, a list compared with an int. *)
+Definition inj_stage_second_pass (op_provided depth_provided infl_provided : bool) (life k : nat) (p_inj infl : Q) (prod : res) : res :=
+  if op_provided
+  then if depth_provided || infl_provided then Err E_TYPE else Err E_UNBOUND
+  else prod.
+
 (* the closed forms the theorems relate the loops to *)
 Definition prod_closed (p0 op : Q) (s : Z) (t : nat) : Q :=
   let pf := p0 * (op / 100) in Qmax p0 (pf - ((pf - p0) / inject_Z s) * natQ t).
@@ -132,5 +143,13 @@ Definition run_inj_stage (a : list Q) : res :=
   match a with
   | opp :: dp :: ip :: life :: k :: p_inj :: infl :: prod =>
       inj_stage (qbool opp) (qbool dp) (qbool ip) (qnat life) (qnat k) p_inj infl (Vals prod)
+  | _ => Err E_ARGS
+  end.
+
+(* the same arguments, second pass *)
+Definition run_inj_stage2 (a : list Q) : res :=
+  match a with
+  | opp :: dp :: ip :: life :: k :: p_inj :: infl :: prod =>
+      inj_stage_second_pass (qbool opp) (qbool dp) (qbool ip) (qnat life) (qnat k) p_inj infl (Vals prod)
   | _ => Err E_ARGS
   end.
